@@ -237,6 +237,33 @@ def rule_helpers(ctx, rep):
                     else:
                         rep.unk("C19.helpers", inst + ".full-set", "the set blocked around pthread_create is not filled by a dominating sigfillset() in this function")
     pat.require(n >= 9, "only %d pthread_create sites found in the libraries" % n)
+    # ... and the creator gets back exactly the mask it had: SIG_SETMASK of the set saved by the blocking call.  SIG_UNBLOCK of the full set (or
+    # any other `restore`) unblocks signals the application had blocked on purpose - e.g. until it has registered the thread as a reader
+    for lib in ("memb", "mb", "qsbr", "bp", "cds"):
+        m = ctx.mod(lib, "perfn")
+        for f in m.defined():
+            sm = [i for i in f.all_insts() if i.op == "call" and i.callee == "pthread_sigmask"]
+            if not sm:
+                continue
+            rep.touch(f)
+            for c in sm:
+                how = ir.const_of(f, c.args[0])
+                inst = "%s.%s@%d" % (lib, f.srcname, c.line)
+                if how == 1:
+                    rep.bad("C19.helpers", inst + ".no-unblock", "pthread_sigmask(SIG_UNBLOCK, ...) in the library: signals the caller had blocked before entering the library are delivered inside / after the call - "
+                            "a handler that uses RCU then runs on a thread the application was still keeping it away from (not yet registered)", [c.where()])
+                elif how == 2:
+                    # the set restored is one a SIG_BLOCK call of this function saved (its third argument), or - fork handlers - a saved global
+                    sv = c.d["aps"][1]
+                    savers = [b for b in sm if ir.const_of(f, b.args[0]) == 0 and b.d["aps"][2] is not None and sv is not None and b.d["aps"][2]["base"] == sv["base"] and b.d["aps"][2]["steps"] == sv["steps"]]
+                    from_global = sv is not None and (pat.base_global(sv) is not None or sv["base"][0] == "a")
+                    copied = sv is not None and any(i.op == "call" and i.callee.startswith("llvm.memcpy") and i.d["aps"][0] and i.d["aps"][0]["base"] == sv["base"] for i in f.all_insts())
+                    handed = sv is not None and any(i.op == "call" and i.callee != "pthread_sigmask" and m.fn(i.callee) is not None and any(a_ is not None and a_["base"] == sv["base"] for a_ in i.d.get("aps", []))
+                                                    and f.dominates(i, c) for i in f.all_insts())       # saved by a helper that received its address
+                    if savers or from_global or copied or handed:
+                        rep.ok("C19.helpers", inst + ".restores-saved-mask", "SIG_SETMASK restores a mask saved earlier")
+                    else:
+                        rep.unk("C19.helpers", inst + ".restores-saved-mask", "the set given to SIG_SETMASK is not one this function saved with its SIG_BLOCK call")
 
 
 def rule_eintr(ctx, rep):
